@@ -135,3 +135,39 @@ let handle (x : t) : (int * string list) option =
   match x with
   | L [I 17; cap; k; a] -> Some (cmd_burst cap k a)
   | _ -> handle x
+
+(* (18 (op...) ((ok (done...) pubdone live) ...))   op: (0) subscribe | (1 i) close subscription i | (2) send | (3) stop
+   after every call (and settling) the implementation reports: did the call succeed, Done() of every subscription,
+   Done() of the publisher, and the class of its goroutine inventory; the model (PubTerm.urun) gives the same tuple with
+   the number of subscriptions still owning a goroutine.  The inventory is compared where C12 pins it down: once the
+   model says the publisher is done and nothing is live, the implementation is back at its baseline.  (What a closed
+   subscription may keep alive while the publisher still runs is not C12's business and is not compared.) *)
+let cmd_term ops obs =
+  let ops = List.map (function
+      | L [I 0] -> USubscribe
+      | L [I 1; I i] -> UClose (nat_of_int i)
+      | L [I 2] -> USend
+      | L [I 3] -> UStop
+      | _ -> bad "term op") (match ops with L l -> l | _ -> bad "ops") in
+  let obs = List.map (function
+      | L [I ok; dones; I pd; I g] -> (ok <> 0, List.map (fun x -> d_int x <> 0) (match dones with L l -> l | _ -> bad "dones"), pd <> 0, g)
+      | _ -> bad "term obs") (match obs with L l -> l | _ -> bad "obs") in
+  let model = List.map (fun (((ok, dones), pd), live) -> (ok, dones, pd, int_of_nat live)) (urun tinit ops) in
+  let n = List.length ops in
+  if List.length obs <> List.length model then (n, ["kind=term length"])
+  else begin
+    let errs = ref [] in
+    List.iteri (fun k ((ok, dones, pd, g), (mok, mdones, mpd, mlive)) ->
+        let sb l = String.concat "" (List.map (fun b -> if b then "1" else "0") l) in
+        if ok <> mok then errs := Printf.sprintf "kind=term step=%d call-result impl=%b model=%b" k ok mok :: !errs;
+        if dones <> mdones then errs := Printf.sprintf "kind=term step=%d subscriptions-done impl=%s model=%s" k (sb dones) (sb mdones) :: !errs;
+        if pd <> mpd then errs := Printf.sprintf "kind=term step=%d publisher-done impl=%b model=%b" k pd mpd :: !errs;
+        if mpd && mlive = 0 && g <> 0 then errs := Printf.sprintf "kind=goroutines step=%d publisher done and nothing live in the model, but %d library goroutines above the baseline" k g :: !errs)
+      (List.combine obs model);
+    (n, List.rev !errs)
+  end
+
+let handle (x : t) : (int * string list) option =
+  match x with
+  | L [I 18; ops; obs] -> Some (cmd_term ops obs)
+  | _ -> handle x
